@@ -146,7 +146,16 @@ mod verif_proofs {
     }
 
     // ---------------------------------------------------------------- Rank
-    fn rank_of(words: &[u64]) -> Rank { Rank(SmallVec::from_slice(words)) }
+    /// The Rank harnesses build ranks from raw words, most significant word first. That is an assumption about the
+    /// REPRESENTATION, not about behaviour: if a refactoring changes the word order this guard makes the harnesses
+    /// vacuous (reported as inconclusive) instead of raising a false alarm.
+    fn repr_is_most_significant_word_first() -> bool {
+        let (hi, lo) = (Rank::new(64), Rank::new(1));
+        let ok = hi.0.len() == 2 && hi.0[0] == 1 && hi.0[1] == 0 && lo.0.len() == 1 && lo.0[0] == 2;
+        std::mem::forget(hi); std::mem::forget(lo);
+        ok
+    }
+    fn rank_of(words: &[u64]) -> Rank { vk::assume(repr_is_most_significant_word_first()); Rank(SmallVec::from_slice(words)) }
     /// value of a rank of <= 2 words as a plain integer (most significant word first)
     fn val(words: &[u64]) -> u128 {
         let mut v: u128 = 0;
